@@ -285,7 +285,9 @@ class World:
             elif op == "sp_clear":
                 self.h[a[0]].sp.clear()
             elif op == "assign":
-                self.h[a[0]].statepoint = uni.real(a[1])
+                arg = uni.real(a[1])
+                self.h[a[0]].statepoint = arg
+                _scribble(arg)          # the caller's mapping is the caller's: later changes to it must not matter
             elif op == "update_sp":
                 path = uni.kmap[a[1]]
                 upd = copy.deepcopy(uni.vmap[a[2]])
@@ -295,7 +297,9 @@ class World:
                     d = dict(cur) if isinstance(cur, dict) else {}
                     d[path[-1]] = upd
                     upd = d
-                self.h[a[0]].update_statepoint({path[0]: upd}, overwrite=bool(a[3]))
+                arg = {path[0]: upd}
+                self.h[a[0]].update_statepoint(arg, overwrite=bool(a[3]))
+                _scribble(arg)
             elif op == "docset":
                 self.h[a[0]].doc = copy.deepcopy(DOCS[a[1]])
             elif op == "writefile":
@@ -356,6 +360,16 @@ class World:
 
     def handle_view(self):
         return {x: (j.id, os.path.basename(j.project.path)) for x, j in self.h.items()}
+
+
+def _scribble(d):
+    """mutate a mapping that was handed to signac, the way a caller re-using its dict would"""
+    for k in list(d):
+        if isinstance(d[k], dict):
+            d[k]["__later__"] = 1
+        elif isinstance(d[k], list):
+            d[k].append("__later__")
+    d["__later__"] = 1
 
 
 class sorted_listdir:
